@@ -61,33 +61,46 @@ pub(crate) fn base64_raw(s: &str) -> Base64 {
     unsafe { std::mem::transmute::<Base64Mirror, Base64>(m) }
 }
 
-/// One-byte content: the text is the single ASCII letter `b'A' + (v % 16)`.
+/// Fixture contents: the four-letter text `AAA?` whose last letter is
+/// `b'A' + (v % 16)` - valid base64 (three bytes), so that a native replay
+/// can run the real `to_hash` on it.
 pub(crate) fn base64_of(v: u8) -> Base64 {
-    const T: [&str; 16] = ["A", "B", "C", "D", "E", "F", "G", "H", "I", "J", "K", "L", "M", "N", "O", "P"];
-    base64_raw(T[(v % 16) as usize])
+    base64_sym(v)
 }
 
-/// Content whose one-letter text is a *symbolic* byte: the allocation is
+/// Content whose last letter is a *symbolic* byte: the allocation is
 /// concrete, only the letter depends on `v` (a table lookup with a symbolic
 /// index makes CBMC reason about a pointer with 16 possible targets).
 pub(crate) fn base64_sym(v: u8) -> Base64 {
-    let b = [b'A' + (v % 16)];
+    let b = [b'A', b'A', b'A', b'A' + (v % 16)];
     base64_raw(unsafe { std::str::from_utf8_unchecked(&b) })
+}
+
+/// The letter that distinguishes a fixture content.
+pub(crate) fn letter_of(b: &Base64) -> u8 {
+    let s = b.as_str().as_bytes();
+    if s.len() < 4 { 0 } else { s[3] }
 }
 
 /// Replacement body for `rpki::ca::publication::Base64::to_hash` (SHA-256 over
 /// the decoded content, through `ring`: assembly/FFI that CBMC cannot run).
 /// The model is a function of the content, as a hash is: equal text gives an
-/// equal hash, and on the fixture domain (one-letter texts) different text
-/// gives a different hash - i.e. a collision-free hash on that domain.
+/// equal hash, and on the fixture domain (texts `AAA?`) different text gives a
+/// different hash - i.e. a collision-free hash on that domain.
 pub(crate) fn stub_to_hash(b: &Base64) -> Hash {
-    let s = b.as_str().as_bytes();
-    let x = if s.is_empty() { 0u8 } else { s[0] };
-    Hash::from([x; 32])
+    Hash::from([letter_of(b); 32])
 }
 
+/// The hash of fixture content `v`: under the engine the model above; in a
+/// native replay (`cfg(test)`: stubs are not applied there) the real SHA-256,
+/// so that the replayed code sees hashes that match its own `to_hash`.
+#[cfg(not(test))]
 pub(crate) fn hash_of(v: u8) -> Hash {
     Hash::from([b'A' + (v % 16); 32])
+}
+#[cfg(test)]
+pub(crate) fn hash_of(v: u8) -> Hash {
+    base64_sym(v).to_hash()
 }
 
 /// An arbitrary hash that is NOT the hash of any fixture content.
